@@ -231,9 +231,9 @@ def run_unit(unit, rng, ctx):
 
         how_c = str(rng.choice(['copy', 'deepcopy', 'pickle']))
         dup = {'copy': copy.copy, 'deepcopy': copy.deepcopy, 'pickle': lambda o_: pickle.loads(pickle.dumps(o_))}[how_c]
-        F_c, vol_c = dup(F), dup(vol)
+        F_c, vol_c = dup(F), dup(vol)  # a copy of a strided density is contiguous: its total is summed in another order, so the free energies agree to rounding, not bit for bit
         ctx.check(np.array_equal(np.asarray(F_c.data), Fd) and np.asarray(F_c.data).dtype == Fd.dtype, f'{what}: a {how_c} of the free-energy volume holds other numbers (finite: {bool(np.all(np.isfinite(np.asarray(F_c.data))))}, max dev {float(np.nanmax(np.abs(np.asarray(F_c.data, dtype=float) - Fd))):.3e})', wit)
-        ctx.check(np.array_equal(np.asarray(vol_c.data), np.asarray(vol.data)) and np.array_equal(np.asarray(vol_c.get_free_energy(temperature=temp).data), np.asarray(vol.get_free_energy(temperature=temp).data)), f'{what}: a {how_c} of the density volume holds other numbers or gives another free energy than the volume it was copied from', wit)
+        ctx.check(np.array_equal(np.asarray(vol_c.data), np.asarray(vol.data)) and np.allclose(np.asarray(vol_c.get_free_energy(temperature=temp).data), np.asarray(vol.get_free_energy(temperature=temp).data), rtol=1e-12, atol=1e-12 * kT), f'{what}: a {how_c} of the density volume holds other numbers or gives another free energy than the volume it was copied from', wit)
         ctx.count(f'volumes_copied_by:{how_c}')
     nv = int(visited.sum())
     ctx.count(f'mode:{mode}')
